@@ -993,7 +993,31 @@ func ensureServiceTxn(tx WriteTxn, idx uint64, node string, preserveIndexes bool
 	}
 
 	// Insert the service and update the index
-	return catalogInsertService(tx, entry)
+	if err := catalogInsertService(tx, entry); err != nil {
+		return err
+	}
+
+	// If the instance was registered under another service name (or kind)
+	// before and that name has no instance left, forget the old name like
+	// the deregistration of its last instance would.
+	if existing != nil && svc.PeerName == "" {
+		old := existing.(*structs.ServiceNode)
+		if old.ServiceName != entry.ServiceName || old.ServiceKind != entry.ServiceKind {
+			remaining, err := tx.First(tableServices, indexService, Query{
+				Value:          old.ServiceName,
+				EnterpriseMeta: old.EnterpriseMeta,
+			})
+			if err != nil {
+				return fmt.Errorf("failed service lookup: %s", err)
+			}
+			if remaining == nil {
+				if err := cleanupKindServiceName(tx, idx, old.CompoundServiceName().ServiceName, old.ServiceKind); err != nil {
+					return fmt.Errorf("failed to persist service name: %v", err)
+				}
+			}
+		}
+	}
+	return nil
 }
 
 // assignServiceVirtualIP assigns a virtual IP to the target service and updates
